@@ -133,6 +133,7 @@ func workerC(c *core.Ctx, args []string) {
 	e := &sched.Explorer{Sc: scenarioC(pre), Bound: bound, Shard: shard, NShards: n, Deadline: c.Deadline}
 	st := e.Explore()
 	c.Add("cases_write_concurrent_schedules", st.Executions)
+	c.Add("replay_divergences", st.Divergences)
 	for o := range st.Outcomes {
 		c.Distinct("write_concurrent_outcomes", o)
 	}
